@@ -5,6 +5,7 @@ import PrysmVerif.Lemmas.C09Asm
 import PrysmVerif.Lemmas.C09Tail
 import PrysmVerif.Lemmas.C09Surf
 import PrysmVerif.Lemmas.C09Jac
+import PrysmVerif.Lemmas.C09Seq
 /-!
 # C09 — derivative routines return the derivatives of the routines they name
 
@@ -130,6 +131,18 @@ anything else reads it, or read exactly once front to back (never traversed twic
 generator / iterator / zip object); Boolean computed by the translator from the syntax trees, opaque to Lean -/
 theorem gen_iterable_arguments : derivativeRoutinesReadIterableArgumentsOnceOrMaterialiseFirst = true := by decide
 
+/-- no derivative routine builds an array whose dtype is taken from the coordinate array and fills it with a computed (possibly
+fractional) value (`np.full_like(x, v)`, `dtype=x.dtype`) unless the coordinates were made floating point first: on integer
+coordinates that would truncate the value.  Boolean computed
+by the translator from the syntax trees, opaque to Lean -/
+theorem gen_no_coordinate_typed_fill : derRoutinesDoNotFillCoordinateTypedArraysWithComputedValues = true := by decide
+
+/-- every derivative routine that does arithmetic of its own on the coordinates (`x - 1`, `2 - 4 * x`, `1 - usq`, `-x`, the integer
+Hermite recurrence, `cos (m t)`) first re-binds each coordinate parameter to its floating-point copy
+(`x = np.asarray(x, dtype=np.result_type(x, 1.0))`), so nothing is computed in the caller's narrow or unsigned integer type (where
+those expressions overflow or wrap around).  Boolean computed by the translator from the syntax trees, opaque to Lean -/
+theorem gen_float_coordinates_at_entry : derRoutinesComputeOnFloatingPointCopiesOfTheirCoordinates = true := by decide
+
 end Gen
 
 section GenField
@@ -253,6 +266,95 @@ theorem gen_surf_q2d_and_der (sigInv z zr zt sr st base br bt Rn : F) :
   refine ⟨?_, by decide⟩
   simp only [surfQ2dAsm, q2dAndDer]
 end GenField
+
+/-! ## translated obligations: sequence forms and delegating routines -/
+section GenSeq
+open Generated.C09
+variable {F : Type} [Field F]
+
+/-- `hermite_He_der_seq` / `hermite_H_der_seq`: explicit rows 0, 1, 2, the locals on entry to the loop, one iteration of the loop and
+the emitted row are the model's sweep (`heSeqState`, `heDerSeqRow`, `hSeqState`, `hDerSeqRow`), for every order and point -/
+theorem gen_hermite_der_seq (x : F) (k : Nat) :
+    heSeqRow0 x = heDerSeqRow 0 x ∧ heSeqRow1 x = heDerSeqRow 1 x ∧ heSeqRow2 x = heDerSeqRow 2 x ∧
+    heSeqInit x = heSeqState x 0 ∧
+    heSeqNext (((k + 3 : ℕ) : ℤ) : F) x (heSeqState x k).1 (heSeqState x k).2 = heSeqState x (k+1) ∧
+    heSeqEmit (((k + 3 : ℕ) : ℤ) : F) x (heSeqState x k).1 (heSeqState x k).2 = heDerSeqRow (k+3) x ∧
+    hSeqRow0 x = hDerSeqRow 0 x ∧ hSeqRow1 x = hDerSeqRow 1 x ∧ hSeqRow2 x = hDerSeqRow 2 x ∧
+    hSeqInit x = hSeqState x 0 ∧
+    hSeqNext (((k + 3 : ℕ) : ℤ) : F) x (hSeqState x k).1 (hSeqState x k).2 = hSeqState x (k+1) ∧
+    hSeqEmit (((k + 3 : ℕ) : ℤ) : F) x (hSeqState x k).1 (hSeqState x k).2 = hDerSeqRow (k+3) x ∧
+    heSeqLoopStart = 3 ∧ hSeqLoopStart = 3 ∧ heSeqStructure = true ∧ hSeqStructure = true := by
+  refine ⟨?_, ?_, ?_, ?_, ?_, ?_, ?_, ?_, ?_, ?_, ?_, ?_, by decide, by decide, by decide, by decide⟩
+  all_goals first
+    | rfl
+    | (simp only [heSeqRow0, heSeqRow1, heSeqRow2, heSeqInit, heSeqNext, heSeqEmit, hSeqRow0, hSeqRow1, hSeqRow2, hSeqInit,
+        hSeqNext, hSeqEmit, heDerSeqRow, hDerSeqRow, heSeqState, hSeqState, ofInt_eq]
+       first
+        | (push_cast; ring)
+        | (refine Prod.ext ?_ ?_ <;> (simp only []; push_cast; ring)))
+
+variable [DecidableEq F]
+
+/-- `jacobi_der_seq`: explicit rows 0..3, the locals on entry to the loop, one iteration and the emitted row are the model's sweep
+(`jacSeqState`, `jacobiDerSeqRow`): shifted shape `(α+1, β+1)`, `recurrence_abc` of order 1 before the loop and `i-1` inside,
+coefficient `½(i+α+β+1)` -/
+theorem gen_jacobi_der_seq (al be x : F) (k : Nat) :
+    jacSeqShape al be = (al + 1, be + 1) ∧ jacSeqInitABCIdx = 1 ∧ (∀ i : Int, jacSeqABCIdx i = i - 1) ∧ jacSeqLoopStart = 3 ∧
+    jacSeqRow0 al be x 0 0 0 = jacobiDerSeqRow 0 al be x ∧ jacSeqRow1 al be x 0 0 0 = jacobiDerSeqRow 1 al be x ∧
+    (let t := jacABC 1 (al + 1) (be + 1)
+     jacSeqRow2 al be x t.1 t.2.1 t.2.2 = jacobiDerSeqRow 2 al be x ∧
+     jacSeqRow3 al be x t.1 t.2.1 t.2.2 = jacobiDerSeqRow 3 al be x ∧
+     jacSeqInit al be x t.1 t.2.1 t.2.2 = jacSeqState al be x 0) ∧
+    (let t := jacABC (k+2) (al + 1) (be + 1)
+     jacSeqNext (((k + 3 : ℕ) : ℤ) : F) al be x t.1 t.2.1 t.2.2 (jacSeqState al be x k).1 (jacSeqState al be x k).2
+        = jacSeqState al be x (k+1)) ∧
+    jacSeqEmit (((k + 4 : ℕ) : ℤ) : F) al be x 0 0 0 (jacSeqState al be x (k+1)).1 (jacSeqState al be x (k+1)).2
+        = jacobiDerSeqRow (k+4) al be x ∧
+    jacSeqStructure = true := by
+  refine ⟨?_, by decide, ?_, by decide, ?_, ?_, ⟨?_, ?_, ?_⟩, ?_, ?_, by decide⟩
+  all_goals first
+    | rfl
+    | (intro i; simp only [jacSeqABCIdx])
+    | (simp only [jacSeqShape, jacSeqRow0, jacSeqRow1, jacSeqRow2, jacSeqRow3, jacSeqInit, jacSeqNext, jacSeqEmit,
+        jacobiDerSeqRow, jacSeqState, ofInt_eq, ofFrac_eq]
+       first
+        | (push_cast; ring)
+        | (refine Prod.ext ?_ ?_ <;> (simp only []; push_cast; ring)))
+end GenSeq
+
+section GenDeleg
+open Generated.C09
+variable {K : Type} [Num K]
+
+/-- `cheby1..4_der(_seq)` and `legendre_der(_seq)` hand the shape parameters, the normalising constant and the orders of their value
+routines to `jacobi_der(_seq)`; `laguerre_der_seq` is `-laguerre_seq` at orders `n-1`, shape `α+1` (zero rows below order 1);
+`zernike_nm_der_seq` stacks `zernike_nm_der` -/
+theorem gen_delegations (n : K) (al : K) (i : Int) :
+    (cheby1DerShape (K := K) = cheby1Shape ∧ cheby1DerNormShape (K := K) = cheby1NormShape ∧ cheby1NormShape (K := K) = cheby1Shape ∧
+      cheby1DerNum n = cheby1Num n) ∧
+    (cheby2DerShape (K := K) = cheby2Shape ∧ cheby2DerNormShape (K := K) = cheby2NormShape ∧ cheby2NormShape (K := K) = cheby2Shape ∧
+      cheby2DerNum n = cheby2Num n) ∧
+    (cheby3DerShape (K := K) = cheby3Shape ∧ cheby3DerNormShape (K := K) = cheby3NormShape ∧ cheby3NormShape (K := K) = cheby3Shape ∧
+      cheby3DerNum n = cheby3Num n) ∧
+    (cheby4DerShape (K := K) = cheby4Shape ∧ cheby4DerNormShape (K := K) = cheby4NormShape ∧ cheby4NormShape (K := K) = cheby4Shape ∧
+      cheby4DerNum n = cheby4Num n) ∧
+    (cheby1DerSeqShape (K := K) = cheby1Shape ∧ cheby1DerSeqNormShape (K := K) = cheby1Shape ∧ cheby1SeqShape (K := K) = cheby1Shape ∧
+      cheby1SeqNormShape (K := K) = cheby1Shape ∧ cheby1DerSeqNum n = cheby1Num n ∧ cheby1SeqNum n = cheby1Num n) ∧
+    (cheby2DerSeqShape (K := K) = cheby2Shape ∧ cheby2DerSeqNormShape (K := K) = cheby2Shape ∧ cheby2SeqShape (K := K) = cheby2Shape ∧
+      cheby2SeqNormShape (K := K) = cheby2Shape ∧ cheby2DerSeqNum n = cheby2Num n ∧ cheby2SeqNum n = cheby2Num n) ∧
+    (cheby3DerSeqShape (K := K) = cheby3Shape ∧ cheby3DerSeqNormShape (K := K) = cheby3Shape ∧ cheby3SeqShape (K := K) = cheby3Shape ∧
+      cheby3SeqNormShape (K := K) = cheby3Shape ∧ cheby3DerSeqNum n = cheby3Num n ∧ cheby3SeqNum n = cheby3Num n) ∧
+    (cheby4DerSeqShape (K := K) = cheby4Shape ∧ cheby4DerSeqNormShape (K := K) = cheby4Shape ∧ cheby4SeqShape (K := K) = cheby4Shape ∧
+      cheby4SeqNormShape (K := K) = cheby4Shape ∧ cheby4DerSeqNum n = cheby4Num n ∧ cheby4SeqNum n = cheby4Num n) ∧
+    (legendreDerShape (K := K) = legendreShape ∧ legendreDerSeqShape (K := K) = legendreShape ∧ legendreSeqShape (K := K) = legendreShape) ∧
+    lagSeqOrder i = lagDerOrder i ∧ lagSeqShape al = lagDerShape al ∧
+    chebyLegendreDerivativesDelegateToJacobiAtSameOrdersAndPoint = true ∧
+    lagSeqRowsAreZeroBelowOrderOneAndMinusLaguerreSeqAbove = true ∧ zernSeqRowIsTheSingleFormAtTheSameArguments = true := by
+  refine ⟨⟨rfl, rfl, rfl, rfl⟩, ⟨rfl, rfl, rfl, rfl⟩, ⟨rfl, rfl, rfl, rfl⟩, ⟨rfl, rfl, rfl, rfl⟩,
+    ⟨rfl, rfl, rfl, rfl, rfl, rfl⟩, ⟨rfl, rfl, rfl, rfl, rfl, rfl⟩, ⟨rfl, rfl, rfl, rfl, rfl, rfl⟩, ⟨rfl, rfl, rfl, rfl, rfl, rfl⟩,
+    ⟨rfl, rfl, rfl⟩, rfl, rfl, by decide, by decide, by decide⟩
+end GenDeleg
+
 
 /-! ## the property -/
 section Main
@@ -638,6 +740,69 @@ theorem zernike_der_radial_correct (n : ℕ) (m : ℤ) (r c s zn : F) :
     simp only [Int.cast_natCast, Int.cast_ofNat, Int.cast_one]
     split <;> ring
 end Jacobi
+
+/-! ## sequence forms and the Chebyshev / Legendre derivative routines -/
+section GenDelegField
+open Generated.C09 Polynomial JacD
+variable {F : Type} [Field F] [DecidableEq F] [CharZero F]
+
+/-- the shapes read from `cheby.py` / `legendre.py` are the four `±½` pairs and `(0, 0)` -/
+theorem gen_cheby_shapes :
+    cheby1Shape (K := F) = (-1/2, -1/2) ∧ cheby2Shape (K := F) = (1/2, 1/2) ∧ cheby3Shape (K := F) = (-1/2, 1/2) ∧
+    cheby4Shape (K := F) = (1/2, -1/2) ∧ legendreShape (K := F) = (0, 0) := by
+  simp only [cheby1Shape, cheby2Shape, cheby3Shape, cheby4Shape, legendreShape, ofFrac_eq, ofInt_eq]
+  refine ⟨?_, ?_, ?_, ?_, ?_⟩ <;> (refine Prod.ext ?_ ?_ <;> (simp only []; push_cast; ring))
+
+/-- **`cheby1..4_der`, `legendre_der`, every order**: for the shape `(α, β)` the source hands to `jacobi_der` and ANY normalising
+constant `c` (the source's `NUM(n) / jacobi(n, α, β, 1)`), `c · jacobi_der(n, α, β, x₀)` is the derivative at `x₀` of the value
+routine's polynomial `c · P_n^{(α,β)}` -/
+theorem cheby_legendre_der_correct (c x₀ : F) (n : ℕ) (sh : F × F)
+    (hsh : sh = cheby1DerShape ∨ sh = cheby2DerShape ∨ sh = cheby3DerShape ∨ sh = cheby4DerShape ∨ sh = legendreDerShape) :
+    c * jacobiDer n sh.1 sh.2 x₀ = eval x₀ (derivative (C c * jacPoly sh.1 sh.2 n)) := by
+  have key : jacobiDer n sh.1 sh.2 x₀ = eval x₀ (derivative (jacPoly sh.1 sh.2 n)) := by
+    obtain ⟨h1, h2, h3, h4, h5⟩ := gen_cheby_shapes (F := F)
+    have d := gen_delegations (K := F) 0 0 0
+    rcases hsh with h | h | h | h | h
+    · rw [h, d.1.1, h1]; exact jacobi_der_chebyshev _ _ _ (Or.inr rfl) (Or.inr rfl) n
+    · rw [h, d.2.1.1, h2]; exact jacobi_der_chebyshev _ _ _ (Or.inl rfl) (Or.inl rfl) n
+    · rw [h, d.2.2.1.1, h3]; exact jacobi_der_chebyshev _ _ _ (Or.inr rfl) (Or.inl rfl) n
+    · rw [h, d.2.2.2.1.1, h4]; exact jacobi_der_chebyshev _ _ _ (Or.inl rfl) (Or.inr rfl) n
+    · rw [h, d.2.2.2.2.2.2.2.2.1.1, h5]; exact legendre_der x₀ n
+  rw [key]; simp [derivative_mul]
+end GenDelegField
+
+
+section SeqMain
+open Polynomial JacD
+variable {F : Type} [Field F]
+
+/-- **`hermite_He_der_seq` / `hermite_H_der_seq`, every order**: each row of the sweep is the derivative of the value routine -/
+theorem hermite_der_seq_correct (x₀ : F) (n : ℕ) :
+    heDerSeqRow n x₀ = eval x₀ (derivative (hePoly (F := F) n)) ∧ hDerSeqRow n x₀ = eval x₀ (derivative (hPoly (F := F) n)) :=
+  ⟨by rw [heDerSeqRow_eq]; exact hermiteHe_der x₀ n, by rw [hDerSeqRow_eq]; exact hermiteH_der x₀ n⟩
+
+/-- **`jacobi_der_seq` (hence `legendre_der_seq`, `cheby*_der_seq`), every order, all admissible shapes**: each row of the sweep is the
+derivative of `P_n^{(α,β)}` at the point -/
+theorem jacobi_der_seq_correct [DecidableEq F] [CharZero F] (al be x₀ : F) (H : ∀ j : ℕ, al + be + (j : F) + 2 ≠ 0) (n : ℕ) :
+    jacobiDerSeqRow n al be x₀ = eval x₀ (derivative (jacPoly al be n)) := by
+  rw [jacobiDerSeqRow_eq]; exact jacobi_der al be x₀ H n
+
+/-- **`cheby1..4_der_seq`, `legendre_der_seq`, every order**: for the shape the source hands to `jacobi_der_seq` and any normalising
+constant `c`, `c ·` (row `n` of the `jacobi_der_seq` sweep) is the derivative at `x₀` of `c · P_n^{(α,β)}` -/
+theorem cheby_legendre_der_seq_correct [DecidableEq F] [CharZero F] (c x₀ : F) (n : ℕ) (sh : F × F)
+    (hsh : sh = Generated.C09.cheby1DerSeqShape ∨ sh = Generated.C09.cheby2DerSeqShape ∨ sh = Generated.C09.cheby3DerSeqShape ∨
+      sh = Generated.C09.cheby4DerSeqShape ∨ sh = Generated.C09.legendreDerSeqShape) :
+    c * jacobiDerSeqRow n sh.1 sh.2 x₀ = eval x₀ (derivative (C c * jacPoly sh.1 sh.2 n)) := by
+  rw [jacobiDerSeqRow_eq]
+  apply cheby_legendre_der_correct
+  have d := gen_delegations (K := F) 0 0 0
+  rcases hsh with h | h | h | h | h
+  · left; rw [h, d.2.2.2.2.1.1, ← d.1.1]
+  · right; left; rw [h, d.2.2.2.2.2.1.1, ← d.2.1.1]
+  · right; right; left; rw [h, d.2.2.2.2.2.2.1.1, ← d.2.2.1.1]
+  · right; right; right; left; rw [h, d.2.2.2.2.2.2.2.1.1, ← d.2.2.2.1.1]
+  · right; right; right; right; rw [h, d.2.2.2.2.2.2.2.2.1.2.1, ← d.2.2.2.2.2.2.2.2.1.1]
+end SeqMain
 
 /-! ## non-vacuity -/
 open Polynomial in
